@@ -60,7 +60,7 @@ def run(ck, replay=None):
     # thorough: all of them) + a drawn sample of the length <= 5 domain + short random strings
     if common.miri_warm(ck, "c11"):
         #        group            modulus  quick jobs  path-U
-        mplan = [("find", 20, 4, 0), ("match", 10, 2, 0), ("matchstr,tight", 20, 2, 0), ("ends", 10, 3, 0), ("path", 22, 5, 4)]
+        mplan = [("find", 28, 4, 0), ("match", 14, 2, 0), ("matchstr,tight", 28, 2, 0), ("ends", 14, 3, 0), ("path", 36, 5, 4)]
         for g, mod, qjobs, U in mplan:
             for i in range(qjobs if quick else mod):
                 add("miri", "miri exh L=3 ops=%s res=%d/%d" % (g, i, mod),
